@@ -134,6 +134,11 @@ type transport struct {
 	// The RPC server for raft.
 	server *grpc.Server
 
+	// The context of all outgoing RPCs. It is canceled when the transport is shut down
+	// so that an RPC which is never answered does not outlive the transport.
+	ctx    context.Context
+	cancel context.CancelFunc
+
 	// The function that is called when an AppendEntries RPC is received.
 	appendEntriesHandler func(*AppendEntriesRequest, *AppendEntriesResponse) error
 
@@ -175,12 +180,22 @@ func (t *transport) Run() error {
 	t.server = grpc.NewServer()
 	pb.RegisterRaftServer(t.server, t)
 	go t.server.Serve(listener)
+	t.ctx, t.cancel = context.WithCancel(context.Background())
 	t.running = true
 
 	return nil
 }
 
 func (t *transport) Shutdown() error {
+	// Outgoing RPCs hold the read lock until they are answered. Cancel them first,
+	// otherwise a peer that never answers would block the shutdown forever.
+	t.mu.RLock()
+	cancel := t.cancel
+	t.mu.RUnlock()
+	if cancel != nil {
+		cancel()
+	}
+
 	t.mu.Lock()
 	if !t.running {
 		t.mu.Unlock()
@@ -227,7 +242,7 @@ func (t *transport) SendAppendEntries(
 	}
 
 	pbRequest := makeProtoAppendEntriesRequest(request)
-	pbResponse, err := client.AppendEntries(context.Background(), pbRequest)
+	pbResponse, err := client.AppendEntries(t.ctx, pbRequest)
 	if err != nil {
 		return AppendEntriesResponse{}, fmt.Errorf("could not make AppendEntries RPC: %w", err)
 	}
@@ -254,7 +269,7 @@ func (t *transport) SendRequestVote(
 	}
 
 	pbRequest := makeProtoRequestVoteRequest(request)
-	pbResponse, err := client.RequestVote(context.Background(), pbRequest)
+	pbResponse, err := client.RequestVote(t.ctx, pbRequest)
 	if err != nil {
 		return RequestVoteResponse{}, fmt.Errorf("could not make RequestVote RPC: %w", err)
 	}
@@ -281,7 +296,7 @@ func (t *transport) SendInstallSnapshot(
 	}
 
 	pbRequest := makeProtoInstallSnapshotRequest(request)
-	pbResponse, err := client.InstallSnapshot(context.Background(), pbRequest)
+	pbResponse, err := client.InstallSnapshot(t.ctx, pbRequest)
 	if err != nil {
 		return InstallSnapshotResponse{}, fmt.Errorf("could not make InstallSnapshot RPC: %w", err)
 	}
